@@ -90,6 +90,9 @@ func (e *Engine) verifyFunc(fn *ssa.Function, c *Contract) (fres *FuncResult) {
 	e.assumeAxioms(x, env)
 	if c != nil {
 		for _, r := range c.Requires {
+			x.altFromSpec(r.E, env, 0)
+		}
+		for _, r := range c.Requires {
 			cond := x.evalSpec(r.E, env)
 			x.assume("true", cond.T)
 			// named model values for replay
@@ -199,4 +202,48 @@ func (o *Oblig) ok() bool {
 		return o.Result.Status == "sat"
 	}
 	return o.Result.Status == "unsat"
+}
+
+// altFromSpec narrows the possible dynamic types of parameters from conjuncts `p.(T)` of
+// the precondition (after expanding preds), so that dispatch on them is pruned syntactically.
+func (x *VC) altFromSpec(e *SExpr, env *SEnv, depth int) {
+	if e == nil || depth > 6 {
+		return
+	}
+	switch e.Op {
+	case "bin":
+		if e.Name == "&&" {
+			x.altFromSpec(e.Args[0], env, depth)
+			x.altFromSpec(e.Args[1], env, depth)
+		}
+	case "typeis":
+		if e.Args[0].Op == "id" {
+			if v, ok := env.vars[e.Args[0].Name]; ok && v.K == KScalar {
+				t := x.resolveType(e.Name, env.pkg)
+				if _, isI := t.Underlying().(*types.Interface); !isI {
+					nv := *v
+					nv.Alt = []types.Type{t}
+					*v = nv
+				}
+			}
+		}
+	case "call":
+		if e.Args[0].Op == "id" {
+			if p, ok := x.eng.db.Preds[e.Args[0].Name]; ok && len(p.Params) == len(e.Args)-1 {
+				ne := &SEnv{x: x, vars: map[string]*Val{}, cur: env.cur, old: env.old, pkg: x.eng.pkgByPath(p.Pkg)}
+				if ne.pkg == nil {
+					ne.pkg = env.pkg
+				}
+				for i, prm := range p.Params {
+					a := e.Args[i+1]
+					if a.Op == "id" {
+						if v, ok := env.vars[a.Name]; ok {
+							ne.vars[prm.Name] = v
+						}
+					}
+				}
+				x.altFromSpec(p.Body, ne, depth+1)
+			}
+		}
+	}
 }
